@@ -87,6 +87,7 @@ func TestVerifC13Child(t *testing.T) {
 	dir := os.Getenv(envDir)
 	ctx := context.Background()
 	w := newWorld()
+	w.chunk = 1024
 	http.DefaultTransport = w.transport()
 
 	switch role {
@@ -191,6 +192,7 @@ type killRig struct {
 	other   string // scratch on another file system, "" if none
 	fillers int
 	runNo   int
+	kept    int
 
 	// dry holds, per variant, the per-syscall counts of the refreshing thread
 	// before the BEGIN marker (n0) and between the markers (n).
@@ -232,7 +234,15 @@ func parseTrace(path string) (lines []traceLine, killed bool, err error) {
 		if m == nil {
 			continue
 		}
-		lines = append(lines, traceLine{pid: m[1], sys: m[2], text: m[3]})
+		tl := traceLine{pid: m[1], sys: m[2], text: m[3]}
+		if n := len(lines); n > 0 && strings.HasSuffix(tl.text, "<unfinished ...>") &&
+			lines[n-1].sys == tl.sys && lines[n-1].text == tl.text && lines[n-1].pid != tl.pid {
+			// strace 6.1 sometimes prints the entry of the killed call a
+			// second time under the id of the thread whose death it notices
+			// first; the call was entered once, by the first thread.
+			continue
+		}
+		lines = append(lines, tl)
 	}
 
 	return lines, killed, sc.Err()
@@ -387,6 +397,24 @@ func (g *killRig) dryRun(variant string) (d *dryCounts) {
 // restart.
 func (g *killRig) runKillCase(c killCase) (out []vrt.Finding) {
 	fs := &findings{}
+	// A kill that lands somewhere else than asked (not observed once the
+	// duplicated log line of strace is ignored, see parseTrace) would still
+	// be a legitimate kill point and is judged like any other, but the case
+	// is repeated so that the requested point is exercised as well.
+	for attempt := 1; attempt <= 3; attempt++ {
+		if g.runKillOnce(fs, c) {
+			break
+		}
+		g.r.Class("kill:off-target-repeated")
+	}
+
+	return fs.list
+}
+
+// runKillOnce runs the refresh child once with the kill of c injected, judges
+// the resulting directory and restart, and reports whether the kill landed
+// where it was asked for (or the child completed).
+func (g *killRig) runKillOnce(fs *findings, c killCase) (onTarget bool) {
 	d := g.dryRun(c.Variant)
 	when := d.n0[c.Sys] + c.K
 	work, dir, l, killed, exit := g.runRefreshChild(c.Variant, c.Sys, when)
@@ -399,18 +427,23 @@ func (g *killRig) runKillCase(c killCase) (out []vrt.Finding) {
 
 	switch {
 	case !killed && l.phase == "after-end":
+		onTarget = true
 		g.r.Class("not-reached:child-completed")
 	case !killed:
 		vrt.Fatalf("kill case %+v: child neither killed nor complete (exit %d, phase %s)", c, exit, l.phase)
 	case l.phase == "before-begin":
 		g.r.Class("kill:before-begin(" + l.last.sys + ")")
 	case l.phase == "after-end":
+		onTarget = true
 		g.r.Class("kill:after-end(" + l.last.sys + ")")
 	default:
 		site := l.last.sys
-		if l.last.pid != l.thread {
-			site += "@other-thread"
-			g.r.Note("kill %+v landed on thread %s (refreshing thread %s): %s(%s", c, l.last.pid, l.thread, l.last.sys, clip(l.last.text))
+		onTarget = l.last.pid == l.thread && l.last.sys == c.Sys && l.counts[c.Sys] == c.K
+		if !onTarget {
+			site += "@off-target"
+			g.r.Note("kill %+v landed at thread %s (refreshing thread %s) %s(%s, counts %v", c, l.last.pid, l.thread, l.last.sys,
+				clip(l.last.text), l.counts)
+			g.keepLog(work)
 		}
 		g.r.Class("kill:refresh(" + site + ")")
 	}
@@ -484,7 +517,21 @@ func (g *killRig) runKillCase(c killCase) (out []vrt.Finding) {
 	g.r.State(fmt.Sprintf("%s|%s|%s|%d|disk[%s]|restart[%s|%s|%s]", c.Variant, l.phase, l.last.sys, l.cacheOps,
 		fmtObs(disk), res.Err, res.HPErr, fmtObs(res.Obs)))
 
-	return fs.list
+	return onTarget
+}
+
+// keepLog saves the strace log of an off-target run next to the shard files
+// (at most three per process) for later inspection.
+func (g *killRig) keepLog(work string) {
+	out := os.Getenv("VERIF_OUT")
+	if out == "" || g.kept >= 3 {
+		return
+	}
+	g.kept++
+	data, err := os.ReadFile(filepath.Join(work, "strace.log"))
+	if err == nil {
+		_ = os.WriteFile(fmt.Sprintf("%s.offtarget-%d.log", out, g.kept), data, 0o600)
+	}
 }
 
 func clip(s string) (out string) {
